@@ -841,3 +841,162 @@ Example ex_respond_encrypted :
   | _ => false
   end = true.
 Proof. vm_compute. reflexivity. Qed.
+
+(* ========================================================================= *)
+(* C08: the encryption decision                                                *)
+Lemma enc_loop_spec l :
+  enc_loop l = match first_enc l with
+               | None => Ok ""
+               | Some k => match first_cert k with None => Err 30 | Some c => Ok c end
+               end.
+Proof.
+  unfold first_enc. induction l as [|k r IH]; simpl; [reflexivity|].
+  unfold is_enc_kd at 1. destruct (seqb (kd_use k) "encryption"); [reflexivity | exact IH].
+Qed.
+
+Lemma unspec_loop_spec l :
+  unspec_loop l = match first_unspec l with Some k => opt_str (first_cert k) | None => "" end.
+Proof.
+  unfold first_unspec. induction l as [|k r IH]; simpl; [reflexivity|].
+  unfold is_usable_unspec at 1. destruct (nonempty (kd_use k)); simpl; [exact IH|].
+  destruct (first_cert k) as [c|] eqn:Ec; [|exact IH]. destruct (nonempty c); [cbn; rewrite Ec; reflexivity | exact IH].
+Qed.
+
+Lemma first_unspec_nonempty l k :
+  first_unspec l = Some k -> nonempty (opt_str (first_cert k)) = true.
+Proof.
+  unfold first_unspec. intro H. apply find_some in H. destruct H as [_ H].
+  unfold is_usable_unspec in H. apply andb_true_iff in H. destruct H as [_ H].
+  destruct (first_cert k); [exact H | discriminate].
+Qed.
+
+Theorem enc_decision_spec cp l : enc_decision cp l = enc_decision_decl cp l.
+Proof.
+  unfold enc_decision, enc_decision_decl, choose_cert_str, fallback_decision.
+  rewrite enc_loop_spec, unspec_loop_spec.
+  destruct (first_enc l) as [k|]; [destruct (first_cert k) as [c|]|]; cbn [bind]; try reflexivity.
+  - destruct (nonempty c) eqn:Ec; [rewrite Ec; reflexivity|].
+    destruct (first_unspec l) as [k'|] eqn:Eu; [|reflexivity].
+    rewrite (first_unspec_nonempty _ _ Eu). reflexivity.
+  - cbn [nonempty]. destruct (first_unspec l) as [k'|] eqn:Eu; [|reflexivity].
+    rewrite (first_unspec_nonempty _ _ Eu). reflexivity.
+Qed.
+
+Lemma of_cert_not_plain r : of_cert r <> Plain.
+Proof. destruct r; discriminate. Qed.
+
+(* plaintext exactly when no key is advertised; in particular a certificate that
+   does not decode, does not parse or carries a non-RSA key is an error, never
+   a reason to send the assertion in clear *)
+Theorem enc_decision_plain_iff cp l : enc_decision cp l = Plain <-> advertises_key_b l = false.
+Proof.
+  rewrite enc_decision_spec. unfold enc_decision_decl, advertises_key_b, fallback_decision.
+  destruct (first_enc l) as [k|]; [destruct (first_cert k) as [c|]|]; cbn [orb].
+  - destruct (nonempty c); cbn [orb].
+    + split; [intro H; exfalso; exact (of_cert_not_plain _ H) | discriminate].
+    + destruct (first_unspec l); [split; [intro H; exfalso; exact (of_cert_not_plain _ H) | discriminate] | tauto].
+  - split; discriminate.
+  - destruct (first_unspec l); [split; [intro H; exfalso; exact (of_cert_not_plain _ H) | discriminate] | tauto].
+Qed.
+
+Theorem enc_decision_never_panics cp l : enc_decision cp l <> EncPanic.
+Proof. exact (enc_decision_not_panic cp l). Qed.
+
+(* an empty X509Certificate element in the (first) encryption descriptor silently
+   disables encryption, even when a later encryption descriptor carries a good key *)
+Example enc_empty_cert_is_plain :
+  enc_decision (fun _ => CertRsaKey 3)
+    [ {| kd_use := "signing"; kd_certs := ["S"] |}; {| kd_use := "encryption"; kd_certs := [""] |};
+      {| kd_use := "encryption"; kd_certs := ["GOOD"] |} ] = Plain.
+Proof. reflexivity. Qed.
+
+Theorem respond_no_plaintext cfg cp rt rq s now tnow addr relay rnd action resp rl :
+  advertises_key_b (kds (rt_desc rt)) = true ->
+  respond cfg cp rt rq s now tnow addr relay rnd = Ok (action, resp, rl) ->
+  exists e id,
+    rs_assertion (rs_body resp) = AEnc e /\ enc_decision cp (kds (rt_desc rt)) = EncryptTo id /\
+    en_recipient e = id /\
+    fst (en_plain e) = fst (make_assertion cfg rt rq s now tnow addr (rnd_saml rnd)) /\
+    en_key e = slice 0 16 (rnd_enc rnd) /\ en_iv e = slice (48 + rnd_wrapn rnd) 16 (rnd_enc rnd) /\
+    en_key_id e = slice 16 16 (rnd_enc rnd) /\ en_data_id e = slice (32 + rnd_wrapn rnd) 16 (rnd_enc rnd).
+Proof.
+  intros Hadv H. apply respond_inv in H. cbv zeta in H.
+  destruct H as (ael & _ & Hel & -> & _).
+  apply make_assertion_el_inv in Hel. destruct Hel as (ctx & _ & [[Hp _] | (id & Hd & ->)]).
+  - apply enc_decision_plain_iff in Hp. congruence.
+  - eexists _, id. unfold response_of. cbn. repeat split; auto.
+Qed.
+
+(* an error on the way (no certificate element, undecodable or non-RSA certificate) emits nothing *)
+Theorem respond_enc_error_is_error cfg cp rt rq s now tnow addr relay rnd :
+  enc_decision cp (kds (rt_desc rt)) = EncErr ->
+  exists c, respond cfg cp rt rq s now tnow addr relay rnd = Err c.
+Proof.
+  intro H. unfold respond. destruct (make_assertion cfg rt rq s now tnow addr (rnd_saml rnd)) as [a r'].
+  unfold make_assertion_el. destruct (signing_context cfg) as [ctx| |] eqn:E; cbn [bind].
+  - rewrite H. cbn [bind]. eauto.
+  - eauto.
+  - unfold signing_context in E. destruct (mem_str _ _); discriminate.
+Qed.
+
+(* ---------- fresh content key and IV ---------- *)
+Lemma drop_drop a : forall b s, drop a (drop b s) = drop (b + a) s.
+Proof.
+  intros b. induction b as [|b IH]; intro s; [reflexivity|].
+  destruct s as [|c r]; simpl.
+  - destruct a; reflexivity.
+  - apply IH.
+Qed.
+
+Lemma slice_drop off n k s : slice off n (drop k s) = slice (k + off) n s.
+Proof. unfold slice. rewrite drop_drop. reflexivity. Qed.
+
+(* two consecutive encryptions fed from one stream take their content keys and
+   IVs from four pairwise disjoint 16-byte windows of the stream *)
+Theorem encrypt_fresh_key_iv id1 id2 w1 w2 r p1 p2 :
+  let '(e1, r1) := encrypt_assertion id1 w1 r p1 in
+  let '(e2, r2) := encrypt_assertion id2 w2 r1 p2 in
+  en_key e1 = slice 0 16 r /\ en_key_id e1 = slice 16 16 r /\
+  en_data_id e1 = slice (32 + w1) 16 r /\ en_iv e1 = slice (48 + w1) 16 r /\
+  en_key e2 = slice (64 + w1) 16 r /\ en_iv e2 = slice (64 + w1 + (48 + w2)) 16 r /\
+  r1 = drop (64 + w1) r /\ r2 = drop (64 + w1 + (64 + w2)) r /\
+  (0 + 16 <= 16 /\ 16 + 16 <= 32 + w1 /\ 32 + w1 + 16 <= 48 + w1 /\ 48 + w1 + 16 <= 64 + w1
+   /\ 64 + w1 + 16 <= 64 + w1 + (48 + w2))%nat.
+Proof.
+  unfold encrypt_assertion, enc_consumed. cbn [en_key en_key_id en_data_id en_iv].
+  rewrite !slice_drop, drop_drop. repeat split; try reflexivity; try lia.
+  f_equal. lia.
+Qed.
+
+Theorem sym_decrypt_only_recipient key e p : sym_decrypt key e = Some p -> key = en_recipient e /\ p = en_plain e.
+Proof.
+  unfold sym_decrypt. destruct (key =? en_recipient e) eqn:E; [|discriminate].
+  intro H. injection H as <-. split; [lia | reflexivity].
+Qed.
+
+(* the C08 monitor holds of the model's own output *)
+Theorem c08_spec_of_model cfg md certs rq sess now tnow addr relay rnd :
+  let c0 := {| c6_cfg := cfg; c6_md := md; c6_certs := certs; c6_rq := rq; c6_sess := sess; c6_now := now;
+               c6_tnow := tnow; c6_addr := addr; c6_relay := relay; c6_rnd := rnd; c6_obs := O6Err |} in
+  c08_spec {| c6_cfg := cfg; c6_md := md; c6_certs := certs; c6_rq := rq; c6_sess := sess; c6_now := now;
+              c6_tnow := tnow; c6_addr := addr; c6_relay := relay; c6_rnd := rnd;
+              c6_obs := formobs_of (c06_model c0) |} = true.
+Proof.
+  cbv zeta. unfold c08_spec, c08_kds, c06_model, c06_route, c06_request.
+  cbn [c6_cfg c6_md c6_certs c6_rq c6_sess c6_now c6_tnow c6_addr c6_relay c6_rnd c6_obs].
+  set (route := match rq with Some r => get_acs_endpoint md r | None => idp_initiated_route md end).
+  set (req := match rq with Some r => r | None => empty_request end).
+  destruct route as [[[[di ei] d] e]|]; [|reflexivity].
+  match goal with |- context [respond ?c ?cp ?r ?q ?ss ?n ?t ?ad ?rl ?rn] =>
+    pose proof (respond_not_panic c cp r q ss n t ad rl rn) as Hnp;
+    destruct (respond c cp r q ss n t ad rl rn) as [[[action resp] rl']| |] eqn:E end;
+    cbn [formobs_of]; [| reflexivity | contradiction].
+  destruct (advertises_key_b (kds d)) eqn:Ea.
+  - pose proof (respond_no_plaintext _ _ (mk_routing md (di, ei, d, e)) _ _ _ _ _ _ _ _ _ _ Ea E) as (enc & id & He & Hd & Hr & _ & Hk & Hiv & Hkid & Hdid).
+    rewrite He. rewrite <- enc_decision_spec. cbn [mk_routing rt_desc] in Hd. rewrite Hd.
+    rewrite Hr, Hk, Hiv, Hkid, Hdid, Z.eqb_refl, !seqb_refl. reflexivity.
+  - apply respond_inv in E. cbv zeta in E. destruct E as (ael & _ & Hel & -> & _).
+    apply make_assertion_el_inv in Hel. destruct Hel as (ctx & _ & [[Hp ->] | (id' & Hd' & ->)]).
+    + reflexivity.
+    + cbn [mk_routing rt_desc] in Hd'. apply (proj2 (enc_decision_plain_iff (cp_of_list certs) _)) in Ea. congruence.
+Qed.
